@@ -40,6 +40,7 @@ def configs(tier):
         out.append(dict(family='builder', entry='nonMarkov_directed_percolate_network', graph=g, rule='threshold', tags=['builder', g]))
         if graphs.ALL[g][1]:
             out.append(dict(family='builder', entry='nonMarkov_directed_percolate_network', graph=g, rule='boolean', tags=['builder', g, 'boolean']))
+            out.append(dict(family='builder', entry='nonMarkov_directed_percolate_network', graph=g, rule='stateful', tags=['builder', g, 'stateful-rule']))
             # xi / zeta as mappings that compute their values on demand (defaultdict, __missing__), as in the documentation's sample
             out.append(dict(family='builder', entry='nonMarkov_directed_percolate_network', graph=g, rule='threshold', mapping='on-demand',
                             tags=['builder', g, 'on-demand-mapping']))
@@ -131,6 +132,16 @@ def run_path(h, cfg):
             zeta[u] = eng.real('zeta_%s' % (u,))
         if cfg['rule'] == 'threshold':
             transmission = lambda x, z: x > z
+        elif cfg['rule'] == 'stateful':
+            # a random / stateful rule and nodes that share their xi and zeta values: the rule is asked once per ordered pair of
+            # neighbours, and each answer decides one edge
+            answers = []
+            xi = {u: 'same-xi' for u in r.G.nodes()}
+            zeta = {u: 'same-zeta' for u in r.G.nodes()}
+
+            def transmission(x, z):
+                answers.append(bool(eng.choose(2, 'rule')))
+                return answers[-1]
         else:
             for u in r.G.nodes():
                 for v in r.G.neighbors(u):
@@ -153,6 +164,14 @@ def run_path(h, cfg):
         H = h.call_must_succeed('no-exception', EoN.nonMarkov_directed_percolate_network, r.G, xi_arg, zeta_arg, transmission)
         if H is None:
             return None
+        if cfg['rule'] == 'stateful':
+            pairs = sum(1 for u in r.G.nodes() for v in r.G.neighbors(u))
+            if len(answers) != pairs or H.number_of_edges() != sum(answers) or set(H.nodes()) != set(r.G.nodes()):
+                h.fail('perc-edge-iff-rule', {'rule_consulted': len(answers), 'ordered_neighbour_pairs': pairs, 'edges': H.number_of_edges(), 'true_answers': sum(answers)})
+            else:
+                h.require('perc-edge-iff-rule', True)
+                h.require('perc-same-nodes', True)
+            return {'edges': sorted(str(e) for e in H.edges())}
         builder_obligations(h, r, H, xi, zeta, table, cfg['rule'])
         return {'edges': sorted(str(e) for e in H.edges())}
     if fam == 'size':
